@@ -176,4 +176,5 @@ def run(tier, seed, replay=None):
         judges=[("handed out exactly once", judge_handout),
                 ("draining match", judge_drain)],
         n_quick=2500, n_thorough=60000, extra_obligations=extra, flags="drain,mode=O,proj=map+tk",
-        extra_lines=lambda rng, tier: [l.replace("|drain,mode=O", "|drain,mode=O,proj=map+tk") for l in c03.extra_lines(rng, tier)])
+        extra_lines=lambda rng, tier: ([l.replace("|drain,mode=O", "|drain,mode=O,proj=map+tk") for l in c03.extra_lines(rng, tier)] +
+                                       conc.long_past_lines(rng, 12 if tier == "quick" else 150, "drain,mode=O,proj=map+tk")))
